@@ -1,7 +1,106 @@
-(* API commands for the Force package (stub until the package lands). *)
-From Coq Require Import ZArith List.
-From Labella Require Import Extract.Codec.
+(* API commands 380..399: engine histories (C06).
+   380  heap ops -> after every compute: the engine's nodes and reported layers
+     heap : n, then n times `id pos width`          (fresh Node objects, rationals `num den`)
+     ops  : m, then m operations
+              0 k id_1 .. id_k                      force.nodes([those objects])
+              1 alg? minPos?? maxPos?? density? nodeSpacing? stubWidth? lineSpacing?
+                                                    force.set_options({...}); every `?` is `0` (key absent)
+                                                    or `1 value`; a minPos/maxPos value is itself `0` (None) or `1 num den`
+              2                                     force.compute()
+     result: c, then per compute
+              status (1, or 2 = labels/options outside the documented domain),
+              n, then n times `id layer num den`    (engine's node order; currentPos)
+              L, then per reported layer `len` and len times `id is_stub num den`
+              L, then per layer `len` and len exact (unrounded) positions `num den`, solver order *)
+From Coq Require Import ZArith QArith List Bool.
+From Labella Require Import Extract.Codec Layout.Distribute Layout.ForceState Layout.Force Extract.ApiDist.
 Import ListNotations.
 Open Scope Z_scope.
 
-Definition api_force (cmd : Z) (a : list Z) : list Z := bad_input.
+Definition d_node : dec nodeobj := fun l =>
+  match d_nat l with
+  | Some (id, r) =>
+    match d_pair d_q d_q r with
+    | Some ((p, w), r') => Some (fresh_node id p w, r')
+    | None => None
+    end
+  | None => None
+  end.
+
+Definition d_update : dec eupdate := fun l =>
+  match d_opt d_alg l with
+  | Some (a, r1) =>
+    match d_opt (d_opt d_q) r1 with
+    | Some (mn, r2) =>
+      match d_opt (d_opt d_q) r2 with
+      | Some (mx, r3) =>
+        match d_opt d_q r3 with
+        | Some (dn, r4) =>
+          match d_opt d_q r4 with
+          | Some (sp, r5) =>
+            match d_opt d_q r5 with
+            | Some (sw, r6) =>
+              match d_opt d_q r6 with
+              | Some (ls, r7) => Some (mkEupdate a mn mx dn sp sw ls, r7)
+              | None => None
+              end
+            | None => None
+            end
+          | None => None
+          end
+        | None => None
+        end
+      | None => None
+      end
+    | None => None
+    end
+  | None => None
+  end.
+
+Definition d_wop : dec wop := fun l =>
+  match l with
+  | 0 :: r => match d_list d_nat r with Some (ids, r') => Some (WNodes ids, r') | None => None end
+  | 1 :: r => match d_update r with Some (u, r') => Some (WOptions u, r') | None => None end
+  | 2 :: r => Some (WCompute, r)
+  | _ => None
+  end.
+
+Definition e_nat (n : nat) : list Z := [Z.of_nat n].
+
+Definition e_compute (before : fstate) (after : fstate) : list Z :=
+  let dom := dist_dom_b (dopts_of_eopts (st_opts before)) (map label_of (st_nodes before)) in
+  (if dom then 1 else 2) ::
+  e_list (fun nd => e_nat (n_id nd) ++ e_nat (n_layer nd) ++ e_q (n_cur nd)) (st_nodes after) ++
+  e_list (e_list (fun x : report_item => e_nat (fst (fst x)) ++ e_bool (snd (fst x)) ++ e_q (snd x)))
+         (match st_layers after with Some ls => ls | None => [] end) ++
+  e_list (e_list e_q) (compute_exact before).
+
+(* the worlds right before and right after every compute *)
+Fixpoint world_pairs (w : world) (ops : list wop) : list (world * world) :=
+  match ops with
+  | [] => []
+  | o :: r =>
+      let w' := world_step w o in
+      match o with
+      | WCompute => (w, w') :: world_pairs w' r
+      | _ => world_pairs w' r
+      end
+  end.
+
+Definition api_history (a : list Z) : list Z :=
+  match d_list d_node a with
+  | Some (heap, r) =>
+    match d_list d_wop r with
+    | Some (ops, _) =>
+        e_list (fun p => e_compute (w_engine (fst p)) (w_engine (snd p)))
+               (world_pairs (mkWorld heap init_state) ops)
+    | None => bad_input
+    end
+  | None => bad_input
+  end.
+
+Definition api_force (cmd : Z) (a : list Z) : list Z :=
+  match cmd with
+  | 380 => api_history a
+  | _ => bad_input
+  end.
